@@ -307,6 +307,13 @@ func c08run(w *report.W) {
 		{"kk: &k kname\nzz: &d {kname: m, mm: x}\nsteps: []\nmeta: {<<: *d, *k : own}\n", "mm=x,kname=own"},
 		{"zz: &d {16: m16, true: mt, mm: x}\nsteps: []\nenv: {<<: *d, 0x10: own16, True: ownT}\n", "mm=x,16=own16,true=ownT"},
 		{"zz: &d {16: m16, mm: x}\nsteps:\n  - command: c\n    agents: {<<: *d, 0x10: own16}\n", "mm=x,16=own16"},
+		// merges through merges: precedence and position are transitive (an own key beats every level; the first source of a list wins at every level)
+		{"zz: &a {x: ax, p: ap}\nyy: &b {<<: *a, q: bq}\nsteps: []\nmeta: {x: own, <<: *b, r: 1}\n", "x=own,p=ap,q=bq,r=1"},
+		{"zz: &a {x: ax, p: ap}\nyy: &b {<<: *a, q: bq}\nsteps: []\nmeta: {<<: *b, x: own}\n", "p=ap,q=bq,x=own"},
+		{"zz: &a {x: ax, p: ap}\nyy: &b {<<: *a, q: bq}\nww: &c {p: cp, s: cs}\nsteps: []\nmeta: {<<: [*b, *c], t: 1}\n", "x=ax,p=ap,q=bq,s=cs,t=1"},
+		{"zz: &a {x: ax, p: ap}\nyy: &b {<<: *a, q: bq}\nww: &c {p: cp, s: cs}\nsteps: []\nmeta: {<<: [*c, *b], t: 1}\n", "p=cp,s=cs,x=ax,q=bq,t=1"},
+		{"zz: &a {x: ax, p: ap}\nyy: &b {q: bq, <<: [*a]}\nvv: &d {<<: *b, x: dx}\nsteps: []\nenv: {p: own, <<: *d, u: w}\n", "p=own,q=bq,x=dx,u=w"},
+		{"zz: &a {x: ax, p: ap}\nyy: &b {<<: *a, q: bq}\nsteps:\n  - command: c\n    agents: {<<: *b, p: own, <<: *a}\n", "x=ax,q=bq,p=own"},
 	} {
 		if !w.Take(fmt.Sprintf("unquoted|%d", i)) {
 			continue
@@ -413,6 +420,13 @@ func c08run(w *report.W) {
 			if !hasMergeKey {
 				eq("yaml", yb, yaml.Unmarshal)
 			}
+			// the exported copy helper keeps keys, values and order (tombstones stay out)
+			if sa0, ok := m.(*ordered.MapSA); ok {
+				tv := ordered.TransformValues(sa0, func(v any) any { return v })
+				if tb, err := json.Marshal(tv); err != nil || string(tb) != string(jb) || tv.Len() != sa0.Len() {
+					w.Violate(report.Violation{Kind: "programmatic-transformvalues", Case: fmt.Sprintf("%s keys %q", name, keys), Detail: fmt.Sprintf("TransformValues(identity) marshals as %s (err %v, Len %d), the source as %s (Len %d)", tb, err, tv.Len(), jb, sa0.Len()), Size: len(keys)})
+				}
+			}
 		}
 		_ = si
 		// a map built with MapFromItems from a slice owns its contents: reusing or editing the caller's slice afterwards
@@ -452,7 +466,7 @@ func init() {
 		Rule: "key sequences: all 1957 permutations of all subsets of {b, a, \"1\", \"true\", \"\", \"a: b\"} plus every rotation and the reversal of an unsorted 10-key and 17-key list; each placed at 15 order-preserving " +
 			"positions (all permutations of <=3 of 10 string keys - 8 that look like non-canonical YAML scalars: 0x10, 16, True, ~, 1.0, 010, +7, null, and 2 made of C0 control characters and a backslash; pipeline env; top-level extra at depth 1 and 3; unknown fields of command / wait / input / trigger / group steps at depth 1-3, inside matrix adjustments, inside a grouped command; unknown steps at " +
 			"top level, nested, and in a bare step list) in JSON and YAML input, with a `<<` merge placed at every index (source repeats an earlier and a later explicit key and adds two new keys); output key order " +
-			"read back from the JSON token stream and the YAML node order; unquoted numeric/boolean keys canonicalised in place, also when a merge supplies the same key under another spelling (own entry wins at its own position); programmatic maps (with tombstones, nested 3 deep, MapSA and MapSS) survive JSON and YAML " +
+			"read back from the JSON token stream and the YAML node order; unquoted numeric/boolean keys canonicalised in place, also when a merge supplies the same key under another spelling (own entry wins at its own position), and merges nested through other merges and lists of merges (6 documents, values checked); programmatic maps (with tombstones, nested 3 deep, MapSA and MapSS) survive JSON and YAML " +
 			"encode -> decode with ordered.Equal; a map built by MapFromItems(slice...) is unaffected by later reuse of that slice. Non-trivial = more than one key.",
 		Assumptions: []string{
 			"legacy plugins mappings are covered by C03 (sources are canonicalised there); here keys are arbitrary strings",
